@@ -371,7 +371,7 @@ func run(t *vlib.T) {
 			if len(seq) > 0 {
 				key := fmt.Sprintf("d%d/dev%d/%v", b.Depth, b.Dev, seq)
 				s := append([]op{}, seq...)
-				t.Case(key, func() *vlib.Outcome { return explore(s, b, sweepCtxs) })
+				t.Case(key, func() *vlib.Outcome { return explore(s, b, sweepCtxs, t.Progress) })
 			}
 			if len(seq) == b.Depth {
 				return
@@ -397,7 +397,7 @@ func run(t *vlib.T) {
 }
 
 // explore runs one history under every vector of pool answers with at most b.Dev deviations.
-func explore(seq []op, b bound, sweepCtxs int) *vlib.Outcome {
+func explore(seq []op, b bound, sweepCtxs int, progress func()) *vlib.Outcome {
 	out := &vlib.Outcome{Counters: map[string]int64{}}
 	hasRender := false
 	for i, o := range seq {
@@ -413,6 +413,7 @@ func explore(seq []op, b bound, sweepCtxs int) *vlib.Outcome {
 		}
 		r := runHistory(seq, prefix, b.Alts, sweepCtxs)
 		out.Counters["executions"]++
+		progress()
 		out.Counters["operations_executed"] += int64(r.ops)
 		out.Counters["choice_tree_nodes"] += int64(len(r.choices)-len(prefix)) + 1
 		if r.viol != "" {
